@@ -21,7 +21,7 @@ var c12Kinds = []byte{h.CALL, h.CALL, h.CALL, h.DELEGATECALL, h.CALLCODE, h.STAT
 func c12Scenario(seed uint64, mode jmode) *scenario {
 	r := h.NewRNG(seed)
 	o := scenOpts{FailPct: 20, ValuePct: 30, MinFork: h.Frontier, MaxFork: h.Cancun, Kinds: c12Kinds, Contracts: 2 + r.Intn(2), NoOOG: true,
-		MaxDepth: 3, MaxNodes: 7, GasReqs: []uint64{0, 4_000_000, 1_500_000, 600_000, 250_000}, RootGas: 12_000_000,
+		MaxDepth: 3, MaxNodes: 7, GasReqs: []uint64{0, 60_000_000, 15_000_000, 4_000_000, 1_000_000}, RootGas: 300_000_000,
 		Extra: journalExtra(seed, mode, true, 70)}
 	return genScenario(r, o)
 }
@@ -109,6 +109,16 @@ func runC12Pair(c Case, res *CaseResult) {
 	if ip.Panic != "" || iq.Panic != "" {
 		res.Fail(Key("panic", "pair"), "panic: "+firstLine(ip.Panic+iq.Panic), desc, clip(ip.PanicStk+iq.PanicStk, 1500))
 		return
+	}
+	// the comparison is only meaningful for gas-insensitive executions: if either run hit an out-of-gas
+	// condition anywhere (the journal fees make P dearer than P'), the pair is outside the domain
+	for _, l := range []*h.Log{fp.L, fq.L} {
+		for i := range l.Events {
+			if e := &l.Events[i]; (e.K == h.KStep || e.K == h.KFault || e.K == h.KExit || e.K == h.KEnd) && e.Err == "oog" {
+				res.Count("pairs_skipped_gas_sensitive", 1)
+				return
+			}
+		}
 	}
 	// journal sites executed in P
 	sites := map[siteKey]bool{}
